@@ -10,6 +10,7 @@ require (
 )
 
 require (
+	golang.org/x/crypto v0.31.0 // indirect
 	golang.org/x/net v0.33.0 // indirect
 	mellium.im/reader v0.1.0 // indirect
 )
